@@ -1,41 +1,18 @@
 /* Contracts for crab::wrapint (lib/wrapint.cpp) — property C13, value level.
- * Every function is proved for ALL widths 1..64 and all operands in one query unless WID fixes the width. */
-#include "spec.h"
-#include "zmodel.h"
-typedef struct S_class_ikos__q_number Q;
+ * Every function is proved for ALL widths 1..64 and all operands in one query unless WID fixes the width.
+ * The contract declarations live in wrapint_contracts.h (shared with units that replace wrapint calls). */
+#include "wrapint_contracts.h"
 
-#define BIN(tag, fn, EXTRA, POST) \
-void fn(W *ret, W *self, W *x) \
-__CPROVER_requires(FRESH(tag, ret, sizeof(W)) && FRESH(tag, self, sizeof(W)) && FRESH(tag, x, sizeof(W))) \
-__CPROVER_requires(PRE2(self, x) && (EXTRA)) \
-__CPROVER_assigns(*ret) \
-__CPROVER_ensures(POST(ret, self, x)); \
-void h_##tag(void){ IN(W, a); IN(W, b); W r; fn(&r, &a, &b); REACH; }
+#define BIN(tag, fn, EXTRA, POST) void h_##tag(void){ IN(W, a); IN(W, b); W r; fn(&r, &a, &b); REACH; }
+#define CMP(tag, fn, OP) void h_##tag(void){ IN(W, a); IN(W, b); fn(&a, &b); REACH; }
+#define ASG(tag, fn, OP) void h_##tag(void){ IN(W, a); IN(W, b); fn(&a, &b); REACH; }
+#define STATICW(tag, fn, POST) void h_##tag(void){ GHOST(uint64_t, w); W r; fn(&r, w); REACH; }
+#define QUERY(tag, fn, RT, EXPR) void h_##tag(void){ IN(W, a); fn(&a); REACH; }
 
-#define CMP(tag, fn, OP) \
-unsigned char fn(W *self, W *x) \
-__CPROVER_requires(FRESH(tag, self, sizeof(W)) && FRESH(tag, x, sizeof(W))) \
-__CPROVER_requires(PRE2(self, x)) \
-__CPROVER_assigns() \
-__CPROVER_ensures(__CPROVER_return_value == (N(self) OP N(x))); \
-void h_##tag(void){ IN(W, a); IN(W, b); fn(&a, &b); REACH; }
+
 
 /* compound assignment: returns this, *this updated, nothing else */
-#define ASG(tag, fn, OP) \
-W *fn(W *self, W *x) \
-__CPROVER_requires(FRESH(tag, self, sizeof(W)) && FRESH(tag, x, sizeof(W))) \
-__CPROVER_requires(PRE2(self, x)) \
-__CPROVER_assigns(*self) \
-__CPROVER_ensures(__CPROVER_return_value == self) \
-__CPROVER_ensures(w_is(*self, __CPROVER_old(self->f1), (__CPROVER_old(self->f0) OP N(x)) & msk(__CPROVER_old(self->f1)))); \
-void h_##tag(void){ IN(W, a); IN(W, b); fn(&a, &b); REACH; }
 
-#define STATICW(tag, fn, POST) \
-void fn(W *ret, uint64_t w) \
-__CPROVER_requires(FRESH(tag, ret, sizeof(W)) && w >= 1 && w <= 64 && FIXW(w)) \
-__CPROVER_assigns(*ret) \
-__CPROVER_ensures(POST(ret, w)); \
-void h_##tag(void){ GHOST(uint64_t, w); W r; fn(&r, w); REACH; }
 
 //@check id=add fn=_ZNK4crab7wrapintplES0_ props=C13
 BIN(add, _ZNK4crab7wrapintplES0_, 1, POST_add)
@@ -90,86 +67,36 @@ ASG(sub_asg, _ZN4crab7wrapintmIES0_, -)
 ASG(mul_asg, _ZN4crab7wrapintmLES0_, *)
 
 //@check id=neg fn=_ZNK4crab7wrapintngEv props=C13
-void _ZNK4crab7wrapintngEv(W *ret, W *self)
-__CPROVER_requires(FRESH(neg, ret, sizeof(W)) && FRESH(neg, self, sizeof(W)) && PRE1(self))
-__CPROVER_assigns(*ret)
-__CPROVER_ensures(POST_neg(ret, self));
 void h_neg(void){ IN(W, a); W r; _ZNK4crab7wrapintngEv(&r, &a); REACH; }
 
 /* ++x / --x */
 //@check id=preinc fn=_ZN4crab7wrapintppEv props=C13
-W *_ZN4crab7wrapintppEv(W *self)
-__CPROVER_requires(FRESH(preinc, self, sizeof(W)) && PRE1(self))
-__CPROVER_assigns(*self)
-__CPROVER_ensures(__CPROVER_return_value == self && w_is(*self, __CPROVER_old(self->f1), (__CPROVER_old(self->f0) + 1) & msk(__CPROVER_old(self->f1))));
 void h_preinc(void){ IN(W, a); _ZN4crab7wrapintppEv(&a); REACH; }
 //@check id=predec fn=_ZN4crab7wrapintmmEv props=C13
-W *_ZN4crab7wrapintmmEv(W *self)
-__CPROVER_requires(FRESH(predec, self, sizeof(W)) && PRE1(self))
-__CPROVER_assigns(*self)
-__CPROVER_ensures(__CPROVER_return_value == self && w_is(*self, __CPROVER_old(self->f1), (__CPROVER_old(self->f0) - 1) & msk(__CPROVER_old(self->f1))));
 void h_predec(void){ IN(W, a); _ZN4crab7wrapintmmEv(&a); REACH; }
 /* x++ / x-- : returns the old value */
 //@check id=postinc fn=_ZN4crab7wrapintppEi props=C13
-void _ZN4crab7wrapintppEi(W *ret, W *self, uint32_t dummy)
-__CPROVER_requires(FRESH(postinc, ret, sizeof(W)) && FRESH(postinc, self, sizeof(W)) && PRE1(self))
-__CPROVER_assigns(*ret, *self)
-__CPROVER_ensures(w_is(*ret, __CPROVER_old(self->f1), __CPROVER_old(self->f0)))
-__CPROVER_ensures(w_is(*self, __CPROVER_old(self->f1), (__CPROVER_old(self->f0) + 1) & msk(__CPROVER_old(self->f1))));
 void h_postinc(void){ IN(W, a); W r; _ZN4crab7wrapintppEi(&r, &a, 0); REACH; }
 //@check id=postdec fn=_ZN4crab7wrapintmmEi props=C13
-void _ZN4crab7wrapintmmEi(W *ret, W *self, uint32_t dummy)
-__CPROVER_requires(FRESH(postdec, ret, sizeof(W)) && FRESH(postdec, self, sizeof(W)) && PRE1(self))
-__CPROVER_assigns(*ret, *self)
-__CPROVER_ensures(w_is(*ret, __CPROVER_old(self->f1), __CPROVER_old(self->f0)))
-__CPROVER_ensures(w_is(*self, __CPROVER_old(self->f1), (__CPROVER_old(self->f0) - 1) & msk(__CPROVER_old(self->f1))));
 void h_postdec(void){ IN(W, a); W r; _ZN4crab7wrapintmmEi(&r, &a, 0); REACH; }
 
 /* extensions and truncation */
 //@check id=sext fn=_ZNK4crab7wrapint4sextEm props=C13
-void _ZNK4crab7wrapint4sextEm(W *ret, W *self, uint64_t bits)
-__CPROVER_requires(FRESH(sext, ret, sizeof(W)) && FRESH(sext, self, sizeof(W)) && PRE1(self) && bits <= 64 && WD(self) + bits <= 64)
-__CPROVER_assigns(*ret)
-__CPROVER_ensures(POST_sext(ret, self, bits));
 void h_sext(void){ IN(W, a); GHOST(uint64_t, bits); W r; _ZNK4crab7wrapint4sextEm(&r, &a, bits); REACH; }
 //@check id=zext fn=_ZNK4crab7wrapint4zextEm props=C13
-void _ZNK4crab7wrapint4zextEm(W *ret, W *self, uint64_t bits)
-__CPROVER_requires(FRESH(zext, ret, sizeof(W)) && FRESH(zext, self, sizeof(W)) && PRE1(self) && bits <= 64 && WD(self) + bits <= 64)
-__CPROVER_assigns(*ret)
-__CPROVER_ensures(POST_zext(ret, self, bits));
 void h_zext(void){ IN(W, a); GHOST(uint64_t, bits); W r; _ZNK4crab7wrapint4zextEm(&r, &a, bits); REACH; }
 /* keep_lower(k): truncation to the k low bits, 1 <= k (k >= width: unchanged) */
 //@check id=keep_lower fn=_ZNK4crab7wrapint10keep_lowerEm props=C13
-void _ZNK4crab7wrapint10keep_lowerEm(W *ret, W *self, uint64_t bits)
-__CPROVER_requires(FRESH(keep_lower, ret, sizeof(W)) && FRESH(keep_lower, self, sizeof(W)) && PRE1(self) && bits >= 1)
-__CPROVER_assigns(*ret)
-__CPROVER_ensures(POST_keep_lower(ret, self, bits));
 void h_keep_lower(void){ IN(W, a); GHOST(uint64_t, bits); W r; _ZNK4crab7wrapint10keep_lowerEm(&r, &a, bits); REACH; }
 
 /* constructors, constants, queries */
 //@check id=ctor_nw fn=_ZN4crab7wrapintC2Emm props=C13
-void _ZN4crab7wrapintC2Emm(W *self, uint64_t n, uint64_t w)
-__CPROVER_requires(FRESH(ctor_nw, self, sizeof(W)) && w >= 1 && w <= 64 && FIXW(w))
-__CPROVER_assigns(*self)
-__CPROVER_ensures(POST_ctor_nw(self, n, w));
 void h_ctor_nw(void){ GHOST(uint64_t, n); GHOST(uint64_t, w); W r; _ZN4crab7wrapintC2Emm(&r, n, w); REACH; }
 /* from a big integer that fits int64 (otherwise the constructor exits with CRAB_ERROR): value modulo 2^w */
 //@check id=ctor_z fn=_ZN4crab7wrapintC2EN4ikos8z_numberEm props=C13
-void _ZN4crab7wrapintC2EN4ikos8z_numberEm(W *self, Z *n, uint64_t w)
-__CPROVER_requires(FRESH(ctor_z, self, sizeof(W)) && FRESH(ctor_z, n, sizeof(Z)) && w >= 1 && w <= 64 && FIXW(w))
-__CPROVER_requires(ZV(n) >= -((i128)1 << 63) && ZV(n) < ((i128)1 << 63))
-__CPROVER_assigns(*self)
-__CPROVER_ensures(w_is(*self, w, wrapz(ZV(n), w)));
 void h_ctor_z(void){ IN(Z, n); GHOST(uint64_t, w); W r; _ZN4crab7wrapintC2EN4ikos8z_numberEm(&r, &n, w); REACH; }
 /* from a rational: ceil(q) modulo 2^w */
-i128 QM_ceil(i128, i128);
-#define QV(q, i) ((i128)(((u128)(q)->f0.a[0].i.f1 << 64) | (u128)(q)->f0.a[0].i.f0))
 //@check id=ctor_q fn=_ZN4crab7wrapintC2EN4ikos8q_numberEm props=C13
-void _ZN4crab7wrapintC2EN4ikos8q_numberEm(W *self, Q *n, uint64_t w)
-__CPROVER_requires(FRESH(ctor_q, self, sizeof(W)) && FRESH(ctor_q, n, sizeof(Q)) && w >= 1 && w <= 64 && FIXW(w))
-__CPROVER_requires(QM_ceil(QV(n, f0), QV(n, f1)) >= -((i128)1 << 63) && QM_ceil(QV(n, f0), QV(n, f1)) < ((i128)1 << 63))
-__CPROVER_assigns(*self)
-__CPROVER_ensures(w_is(*self, w, wrapz(QM_ceil(QV(n, f0), QV(n, f1)), w)));
 void h_ctor_q(void){ Q n; GHOST(uint64_t, w); W r; _ZN4crab7wrapintC2EN4ikos8q_numberEm(&r, &n, w); REACH; }
 
 //@check id=smax fn=_ZN4crab7wrapint14get_signed_maxEm props=C13
@@ -181,12 +108,6 @@ STATICW(umax, _ZN4crab7wrapint16get_unsigned_maxEm, POST_umax)
 //@check id=umin fn=_ZN4crab7wrapint16get_unsigned_minEm props=C13
 STATICW(umin, _ZN4crab7wrapint16get_unsigned_minEm, POST_umin)
 
-#define QUERY(tag, fn, RT, EXPR) \
-RT fn(W *self) \
-__CPROVER_requires(FRESH(tag, self, sizeof(W)) && PRE1(self)) \
-__CPROVER_assigns() \
-__CPROVER_ensures(__CPROVER_return_value == (EXPR)); \
-void h_##tag(void){ IN(W, a); fn(&a); REACH; }
 //@check id=msb fn=_ZNK4crab7wrapint3msbEv props=C13
 QUERY(msb, _ZNK4crab7wrapint3msbEv, unsigned char, (N(self) >> (WD(self) - 1)) & 1)
 //@check id=is_zero fn=_ZNK4crab7wrapint7is_zeroEv props=C13
@@ -198,21 +119,10 @@ QUERY(get_bitwidth, _ZNK4crab7wrapint12get_bitwidthEv, uint64_t, WD(self))
 
 /* conversions to big integers */
 //@check id=ubignum fn=_ZNK4crab7wrapint19get_unsigned_bignumEv props=C13
-void _ZNK4crab7wrapint19get_unsigned_bignumEv(Z *ret, W *self)
-__CPROVER_requires(FRESH(ubignum, ret, sizeof(Z)) && FRESH(ubignum, self, sizeof(W)) && PRE1(self))
-__CPROVER_assigns(*ret)
-__CPROVER_ensures(ZV(ret) == (i128)(u128)N(self));
 void h_ubignum(void){ IN(W, a); Z r; _ZNK4crab7wrapint19get_unsigned_bignumEv(&r, &a); REACH; }
 //@check id=sbignum fn=_ZNK4crab7wrapint17get_signed_bignumEv props=C13
-void _ZNK4crab7wrapint17get_signed_bignumEv(Z *ret, W *self)
-__CPROVER_requires(FRESH(sbignum, ret, sizeof(Z)) && FRESH(sbignum, self, sizeof(W)) && PRE1(self))
-__CPROVER_assigns(*ret)
-__CPROVER_ensures(ZV(ret) == sxv(N(self), WD(self)));
 void h_sbignum(void){ IN(W, a); Z r; _ZNK4crab7wrapint17get_signed_bignumEv(&r, &a); REACH; }
 /* fits_wrapint(z, w): w <= 64 and z fits a signed 64-bit integer */
 //@check id=fits_z fn=_ZN4crab7wrapint12fits_wrapintEN4ikos8z_numberEm props=C13
-unsigned char _ZN4crab7wrapint12fits_wrapintEN4ikos8z_numberEm(Z *n, uint64_t w)
-__CPROVER_requires(FRESH(fits_z, n, sizeof(Z)))
-__CPROVER_assigns()
-__CPROVER_ensures(__CPROVER_return_value == (w <= 64 && ZV(n) >= -((i128)1 << 63) && ZV(n) < ((i128)1 << 63)));
 void h_fits_z(void){ IN(Z, n); GHOST(uint64_t, w); _ZN4crab7wrapint12fits_wrapintEN4ikos8z_numberEm(&n, w); REACH; }
+
